@@ -103,7 +103,8 @@ CHECKS['C02'] = dict(
           'C02_generated_code_builds_that_tree (the code model gen returns that value and position: genOT_refines inside C01_codegen_refines_peg, with the OperatorTable/Apply flags re-extracted from /repo), C02_reductions_preserve_order. '
           'Tie: random tables (1-5 rows, all six row kinds, operator spellings shared between prefix/infix/postfix rows and prefixes of one another, literal / regex / rule / class / consuming-rule operands, several enclosing contexts) x token strings, complete and truncated: '
           'tree and end index compared with the Lean model and specification; the tagging hypothesis of the theorem is evaluated by the driver (allTablesTagged) on every table the real generator builds. '
-          'PARTIAL: uniqueness of the well-shaped tree and maximality of the run are decided by the exhaustive correspondence only, not by theorems.'),
+          'C02_unique / C02_result_is_the_well_shaped_tree (two well-shaped trees with the same reading are equal: the stack operations rebuild every well-shaped tree from its reading). '
+          'PARTIAL: maximality of the run is decided by the exhaustive correspondence only, not by a theorem.'),
     note='Trusted as for C01.',
     design='0.2, 0.9, 7 (C02)')
 
